@@ -375,7 +375,7 @@ func c30Compare(c *fw.Ctx, g *grammar.Grammar, want, got *yFile, desc string, fi
 			}
 			switch {
 			case sameStrings(wNoMid, gt.rhs):
-				kind = "rhs-lacks-mid-rule-action-nonterminal"
+				kind = "rhs-lacks-extracted-nonterminal"
 			case sameStrings(wNoMarker, gt.rhs):
 				kind = "rhs-lacks-state-marker"
 			case len(w.rhs) != len(gt.rhs):
@@ -485,7 +485,7 @@ func c30Judge(c *fw.Ctx, p *genrun.Pkg, optDesc string) {
 				c.Count("rhs_state_markers", 1)
 			}
 			if strings.Contains(s, "$") {
-				c.Count("rhs_mid_rule_nonterminals", 1)
+				c.Count("rhs_extracted_nonterminals", 1)
 			}
 			if strings.HasPrefix(s, "lookahead_") {
 				c.Count("rhs_lookahead_nonterminals", 1)
@@ -501,6 +501,11 @@ func c30Judge(c *fw.Ctx, p *genrun.Pkg, optDesc string) {
 	if c30Compare(c, g, want, got, optDesc, files) {
 		c.Count("exports_matching", 1)
 	}
+	last := ""
+	if n := len(want.rules); n > 0 {
+		last = ruleString(want.rules[n-1])
+	}
+	c.Sample(map[string]any{"grammar": g.Name, "rules": len(want.rules), "precedence_groups": len(want.prec), "last_rule": last, "what": firstLine(optDesc)})
 	c.Distinct(fmt.Sprintf("%x/%d/%d", fnvString(text), len(want.rules), len(want.prec)))
 }
 
@@ -556,7 +561,7 @@ func c30Run(c *fw.Ctx) {
 		if j%5 != 4 {
 			force["genParser"] = true // lexer-only exports are boring: one in five vectors may have them
 		}
-		p := c17Generate(c, j, t, name, "", force)
+		p := c17Generate(c, j, t, name, "nocompile:", force)
 		if p == nil {
 			continue
 		}
